@@ -3,7 +3,7 @@ CONSTANTS Claims = {"c3"}  MaxNow = 1000  MaxFaults = 1  MaxEnv = 3  MaxLen = 30
           EA = 600  LT = 300  RT = 900  TolReady = 120  TolUnk = 90  TolDisk = 60  UnknownFirst = TRUE
           PoolBg = {0}  OtherBg = {0}  MaxBad = 0  MaxDel = 0  ReadyVals = {"True", "False", "Unknown"}
           RoundedClock = {}  ExpireSlack = 0  ExpireNever = "check"  GcOnProvListError = "abort"  GcOnLookupError = "skip"  GcReady = "check"  NotFoundAsEmpty = {}  GcReadOrder = "claimsFirst"  LiveGate = "registered"
-          LiveSlack = 0  RepairSlack = 0  RepairTolBy = "policy"  RepairExtra = 0  RepairScope = "pool"  RepairOnListError = "abort"  RepairTerminating = "count"
+          LiveSlack = 0  RepairSlack = 0  RepairTolBy = "policy"  RepairAnnotated = "check"  RepairExtra = 0  RepairScope = "pool"  RepairOnListError = "abort"  RepairTerminating = "count"
 SPECIFICATION Spec
 VIEW view
 INVARIANTS TypeOK Inv_C16_Expiration Inv_C16_GarbageCollection Inv_C16_Liveness Inv_C16_Repair
